@@ -840,12 +840,16 @@ def correspond(ctx):
         bump(stats["history_len"], "<=100" if len(ops) <= 100 else "<=500" if len(ops) <= 500 else ">500")
         pos += 1  # header line
         lastcap = None
-        broken = False
+        broken = False          # the property oracle failed in this history: nothing after it is meaningful
+        broken_model = False    # model and implementation diverged: stop comparing them, keep evaluating the oracle
         for i, (op, a, b, c) in enumerate(ops):
             iline = il[pos] if pos < len(il) else None
             mline = ml[pos]
             pos += 1
             if broken:
+                if iline is None:
+                    pos_dead = True     # the implementation died/hung later in this already failing history
+                    break
                 continue
             evaluations += 1
             bump(stats["ops"], "%s.%s" % (KINDS[kind].split("-")[0], OPN[kind].get(op, op)))
@@ -856,7 +860,6 @@ def correspond(ctx):
                        ("did not terminate within the time limit" if rc1 == 124 else "stopped", rc1,
                         (", stderr: " + ierr.strip()[-200:]) if ierr.strip() else "", mmodel[:200]))
                 n_oracle += 1
-                broken = True
                 if n_oracle <= 6:
                     ctx.violation(history_key(kind, typ, ops, i, h["n"]), "oracle", "%s step %d (%s %d %d %d): %s" % (KINDS[kind], i, OPN[kind].get(op, op), a, b, c, msg),
                                   detail={"history": describe(kind, typ, ops, i), "model": mmodel[:2000],
@@ -886,9 +889,11 @@ def correspond(ctx):
                                   detail={"history": describe(kind, typ, ops, i), "implementation": iline[:2000], "model": mmodel[:2000],
                                           "replay": "printf '%s\\n' | <driver built from harness/C12/driver.nelua>" % "\\n".join(fmt_ops(kind, typ, ops[:i + 1], h["n"], dump))})
                 continue
+            if broken_model:
+                continue
             if mmodel != iline:
                 n_mismatch += 1
-                broken = True
+                broken_model = True
                 if n_mismatch <= 3:
                     ctx.violation("model-mismatch:%s.%s" % (KINDS[kind], OPN[kind].get(op, op)), "correspondence",
                                   "the model of %s no longer corresponds to the code at step %d (%s %d %d %d): model '%s', implementation '%s' (the abstract list/map agrees with the implementation)" % (KINDS[kind], i, OPN[kind].get(op, op), a, b, c, mmodel[:300], iline[:300]),
@@ -902,7 +907,7 @@ def correspond(ctx):
                     smsg = "spec line unparsable: %r (%s)" % (mspec[:200], ex)
                 if smsg is not None:
                     n_spec += 1
-                    broken = True
+                    broken_model = True
                     if n_spec <= 2:
                         ctx.violation("spec-mismatch:%s.%s" % (KINDS[kind], OPN[kind].get(op, op)), "correspondence",
                                       "the extracted abstract specification (the theorems' right-hand side) disagrees with the Python oracle: %s" % smsg,
